@@ -2,6 +2,7 @@ package props
 
 import (
 	"fmt"
+	"strings"
 	"time"
 
 	"verif/harness/bfs"
@@ -34,6 +35,10 @@ func c02Menu(w *mintops.W) []string {
 			ops = append(ops, fmt.Sprintf("swap|%d|%s", i, v))
 		}
 	}
+	if len(un) >= 1 {
+		// the same proof twice, the copies differing in a field the signature check does not look at
+		ops = append(ops, fmt.Sprintf("swap|%d,%dw|exact", un[0], un[0]), fmt.Sprintf("swap|%d,%dd|exact", un[0], un[0]))
+	}
 	if len(un) >= 2 {
 		ops = append(ops, fmt.Sprintf("swap|%d,%d|exact", un[0], un[1]), fmt.Sprintf("swap|%d,%d|plus1", un[0], un[1]))
 	}
@@ -60,7 +65,7 @@ func c02Menu(w *mintops.W) []string {
 			}
 		}
 		if w.Cfg.MPP {
-			ops = append(ops, "meltqp|4")
+			ops = append(ops, "meltqp|4", "meltqpm|0", "meltqpm|1500")
 		}
 		for qi, q := range w.Quotes {
 			if qi >= 1 && q.Payments == 0 {
@@ -94,6 +99,23 @@ func c02Menu(w *mintops.W) []string {
 	return ops
 }
 
+// c02MppMenu is the menu of the MPP configuration: the melt-quote shapes are what it is for, so the swap / mint
+// over-issuance variants (covered by the per-fee searches) are left out.
+func c02MppMenu(w *mintops.W) []string {
+	var ops []string
+	for _, op := range c02Menu(w) {
+		f := strings.Split(op, "|")
+		if (f[0] == "swap" || f[0] == "mint") && f[len(f)-1] != "exact" {
+			continue
+		}
+		if f[0] == "swap" && strings.ContainsAny(f[1], "wd") {
+			continue
+		}
+		ops = append(ops, op)
+	}
+	return ops
+}
+
 func c02Specs(quick bool) []*bfs.Spec {
 	fees := []uint{0, 100, 2500}
 	d := 3
@@ -109,7 +131,7 @@ func c02Specs(quick bool) []*bfs.Spec {
 	}
 	// MPP configuration; an unpaid own quote is already present so that partial melts of the mint's OWN invoice are in reach
 	specs = append(specs, &bfs.Spec{Prop: "C02", Name: "C02-mpp-fee100" + sfx, Cfg: mintops.Config{Fee: 100, MPP: true},
-		Init: []string{"fund|8,4,2,1,1,1,1", "mq|8"}, Menu: c02Menu, Depth: d})
+		Init: []string{"fund|8,4,2,1,1,1,1", "mq|8"}, Menu: c02MppMenu, Depth: d})
 	return specs
 }
 
@@ -118,7 +140,7 @@ var c02All = specMap(c02Specs(true), c02Specs(false))
 func init() {
 	register(&Prop{ID: "C02", Level: "model_checking", QuickBudget: 100 * time.Second, ThoroughBudget: 25 * time.Minute,
 		Run: func(c *rt.Ctx) {
-			c.Cov["rule"] = "E3, one search per input_fee_ppk (quick {0,100,2500}, thorough {0,1,100,999,1000,2500}) plus one with MPP: every history up to the depth bound over {mint quote, settle, mint x {exact, less, +1, 2^63+2^63 wrap-around, amount 3}, swap x {inputs-fee, +1, inputs, wrap-around} on single / paired / mixed-keyset inputs, melt quote (external, internal, MPP partial), melt with inputs exactly amount+reserve+fee and one less x {Succeeded, Failed->Failed, Pending}, poll x {Succeeded, Failed}, rotate to a second fee}; Lightning model charges the whole fee limit; invariant in every state: outstanding ecash + Lightning outflow incl. fee limits (+ in-flight beyond locked inputs) <= Lightning inflow + internal settlements, and every fee limit handed to the backend <= the quote's fee_reserve"
+			c.Cov["rule"] = "E3, one search per input_fee_ppk (quick {0,100,2500}, thorough {0,1,100,999,1000,2500}) plus one with MPP: every history up to the depth bound over {mint quote, settle, mint x {exact, less, +1, 2^63+2^63 wrap-around, amount 3}, swap x {inputs-fee, +1, inputs, wrap-around} on single / paired / mixed-keyset inputs and on the same proof twice (witness / DLEQ field changed), melt quote (external, external with a non-round msat amount, forged invoice carrying the payment hash of an own unpaid mint quote, internal, MPP partial incl. parts of 0 and 1500 msat), melt with inputs exactly amount+reserve+fee and one less x {Succeeded, Failed->Failed, Pending}, poll x {Succeeded, Failed}, rotate to a second fee}; Lightning model charges the whole fee limit; invariant in every state, in msat: outstanding ecash (model and the mint's own signature store, whichever is larger) + Lightning outflow incl. fee limits (+ in-flight beyond locked inputs) <= Lightning inflow + internal settlements, and every fee limit handed to the backend <= the quote's fee_reserve"
 			runSpecs(c, c02Specs(c.Quick()))
 		},
 		Worker: bfs.Worker(c02All),
